@@ -50,7 +50,7 @@ RUNTIME = {
     'C10': [('random', 'nesting', 10000, 'trace'), ('sweep', 'cube', 3, 'trace'),
             ('random', 'nesting', 8000, 'twin'), ('random', 'generic', 4000, 'twin'),
             ('random', 'ties', 3000, 'twin')],
-    'C11': [('random', 'big', 1500, 'trace'), ('sweep', 'phase', 3, 'trace'), ('sweep', 'phasew', 3, 'trace'),
+    'C11': [('sweep', 'extcancel', 2, 'trace'), ('random', 'big', 1500, 'trace'), ('sweep', 'phase', 3, 'trace'), ('sweep', 'phasew', 3, 'trace'),
             ('random', 'nesting', 8000, 'trace'), ('random', 'abort', 6000, 'trace'),
             ('random', 'generic', 5000, 'trace'), ('random', 'shutdown', 4000, 'trace'),
             ('suite',)],
